@@ -3,8 +3,9 @@
    included) are both free. *)
 From Coq Require Import ZArith List.
 From Coq Require Import Lia.
-From Arsenal Require Import Util Bits Gran Tlsf TlsfStep TlsfProps SizeClass TlsfInv2 TlsfStep2 TlsfProps2 GranInv GranTlsf.
+From Arsenal Require Import Util Bits Gran Tlsf TlsfGeom TlsfInv1 TlsfStep TlsfProps SizeClass TlsfInv2 TlsfStep2 TlsfProps2 GranInv GranTlsf.
 From Arsenal Require Linear LinearInv LinearAlloc LinearFree LinearStep LinearSwap LinearVisit LinearProps.
+Import ListNotations.
 Open Scope Z_scope.
 
 Theorem C18_tlsf_no_adjacent_free : forall h gr size ops,
